@@ -67,7 +67,7 @@ def gen_cases(rng, tier):
             db = {"a": body % rec}
             db.update(extra)
             for pg in LAZY_PAGES:
-                for lim in (LAZY_LIMITS if tier != "quick" or pg == LAZY_PAGES[0] else [100, rng.choice(LAZY_LIMITS[1:])]):
+                for lim in (LAZY_LIMITS if tier != "quick" or pg == LAZY_PAGES[0] else [rng.choice(LAZY_LIMITS[1:])]):
                     add(pg, db, lim, "lazy-magic-recursion", cpu_limit=LAZY_CPU_LIMIT)
     for pg, db in BLOWUP:
         add(pg, db, 100, "directed-blowup", nomodel=True)
@@ -230,7 +230,7 @@ def run(run, src):
                  "(quick: the 6-token pages only on the mutual-recursion universe and only pages with both brace runs; thorough: on all universes); "
                  "a sample of them (5 000 quick / 300 000 thorough) also under recursion limits 0..8; plus %d cyclic universes whose recursive call "
                  "occurs twice inside a lazily fetched argument of #ifexpr / lc / padleft / #iferror (colon and pipe forms, taken and untaken "
-                 "branches, self / mutual / argument-passing recursion) x 3 pages x recursion limits 100, 0, 1, 2, 3, 5, 8, 13, 21 under a %gs CPU "
+                 "branches, self / mutual / argument-passing recursion) x 3 pages x recursion limits 100, 0, 1, 2, 3, 5, 8, 13, 21 (quick: all limits on the first page, one sampled small limit on the others) under a %gs CPU "
                  "limit; non-trivial = page contains an opening and a closing brace run"
                  % (l9, l9, len(LAZY_RECS) * len(LAZY_BODIES), LAZY_CPU_LIMIT)),
         "trusted": ["hand-written Gallina model of evaluate.flatten / ArgumentList.get / insert_implicit_newlines / nodes.pyx (coq/C03/Model.v), tied by this run",
